@@ -186,6 +186,53 @@ def run(ctx):
     r = ctx.rule("C02-R9", "ORDER", "the test 'a value was given to an option that accepts none' sees the value as given: "
                  "no assignment of None to it can reach the test except under an identity test with a non-string "
                  "sentinel (an empty attached value, '--flag=', is still a value)", reference=1)
+    value_as_given_rule(ctx, r, parser)
+    # ---------------------------------------------------------------- R10
+    from .c01 import sentinel_loops
+
+    r = ctx.rule("C02-R10", "SENTINEL", "surplus positionals are detected also when one of them is the empty string: loops over values "
+                 "drawn with next(it, None) end on that sentinel, not on a falsy value (same rule as C01-R6)", reference=2)
+    sentinel_loops(ctx, r, [f for f in p.all_functions() if f.module.name.startswith("clikit.args")])
+    if r.n == 0:
+        r.vacuous_ok = True
+
+    # ---------------------------------------------------------------- R11
+    r = ctx.rule("C02-R11", "GUARD", "a missing required argument is looked for in every format: the scan over the arguments that filters with is_required() "
+                 "and 'not collected' is not under any test (a format-level predicate such as has_required_argument() is false as soon as one "
+                 "argument is optional)", reference=1)
+    pcfg = ctx.cfg(parse)
+    scans = [n for n in pcfg.nodes if n.kind == "stmt" and n.ast is not None and any(isinstance(c, ast.Call) and isinstance(c.func, ast.Attribute) and c.func.attr == "is_required" for c in ast.walk(n.ast))
+             and any(isinstance(x, (ast.ListComp, ast.GeneratorExp, ast.For)) for x in ast.walk(n.ast))]
+    scans += [n for n in pcfg.nodes if n.kind == "for" and any(isinstance(c, ast.Call) and isinstance(c.func, ast.Attribute) and c.func.attr == "is_required" for c in ast.walk(n.ast))]
+    # the scan may sit in a private helper called from parse
+    helper_calls = []
+    if not scans:
+        for c in q.calls(parse):
+            if isinstance(c.func, ast.Attribute) and isinstance(c.func.value, ast.Name) and c.func.value.id == "self" and c.func.attr in parser.methods:
+                h = parser.methods[c.func.attr]
+                if any(isinstance(x, ast.Call) and isinstance(x.func, ast.Attribute) and x.func.attr == "is_required" for x in ast.walk(h.node)):
+                    helper_calls += pcfg.nodes_of(c)
+    if not scans and not helper_calls:
+        r.fail(parse, parse.node, "no required-argument scan", "parse() never looks for required arguments that were not given")
+    for n in scans + helper_calls:
+        doms = [e for e in pcfg.nodes if e.kind in ("T", "F") and pcfg.dominates(e.id, n.id) and e.ast is not None and "lenient" not in q.names_in(e.ast)]
+        if doms:
+            r.fail(parse, n.ast, "required-argument scan under `%s`" % norm(doms[0].ast), "parse() looks for missing required arguments only when %s%s: for formats where that test is false "
+                   "a line without its required argument is accepted" % ("" if doms[0].kind == "T" else "not ", norm(doms[0].ast)))
+        else:
+            r.ok("%s: required-argument scan is unconditional" % parse.short)
+
+    # ---------------------------------------------------------------- R12
+    from .c05 import explicit_mode_rule
+
+    r = ctx.rule("C02-R12", "SENTINEL", "strict means strict: the facade Command.parse replaces the mode by the config's setting only when none was given "
+                 "(`is None`), never with `or` (same rule as C05-R5)", reference=1)
+    explicit_mode_rule(ctx, r)
+    return ctx.results
+
+
+def value_as_given_rule(ctx, r, parser):
+    """ORDER rule shared with C01."""
     for m in parser.methods.values():
         cfg = ctx.cfg(m)
         for rz in q.raises(m):
@@ -215,15 +262,36 @@ def run(ctx):
                            "an option accepting none: '--flag=' is accepted, and '--opt= next' takes the next token as the value" % (m.short, x))
                 else:
                     r.ok("%s: `%s` sees %s as given" % (m.short, norm(g.ast), x))
-    # ---------------------------------------------------------------- R10
-    from .c01 import sentinel_loops
-
-    r = ctx.rule("C02-R10", "SENTINEL", "surplus positionals are detected also when one of them is the empty string: loops over values "
-                 "drawn with next(it, None) end on that sentinel, not on a falsy value (same rule as C01-R6)", reference=2)
-    sentinel_loops(ctx, r, [f for f in p.all_functions() if f.module.name.startswith("clikit.args")])
-    if r.n == 0:
-        r.vacuous_ok = True
-    return ctx.results
+    # the look-ahead for a value (drawing the next token) happens only when NO value was attached: same discipline for the
+    # `<value> is None` test that guards the draw
+    for m in parser.methods.values():
+        cfg = ctx.cfg(m)
+        prm = set(m.params)
+        draws = [n for n in cfg.nodes if n.kind == "stmt" and isinstance(n.ast, ast.Assign) and isinstance(n.ast.value, ast.Call) and isinstance(n.ast.value.func, ast.Attribute)
+                 and n.ast.value.func.attr == "pop"]
+        for d in draws:
+            g = guarded_by(cfg, d, lambda e: isinstance(e, ast.Compare) and isinstance(e.ops[0], ast.Is) and isinstance(e.comparators[0], ast.Constant)
+                           and e.comparators[0].value is None and isinstance(e.left, ast.Name) and e.left.id in prm, polarity=True, kill_names=lambda e: set())
+            if g is None:
+                continue
+            x = g.ast.left.id
+            bad = None
+            for w in cfg.writes(lambda t: t == x):
+                a = w.ast
+                if not (isinstance(a, ast.Assign) and isinstance(a.value, ast.Constant) and a.value.value is None):
+                    continue
+                if g.id not in cfg.reach([w.id]):
+                    continue
+                sentinel = guarded_by(cfg, w, lambda e: isinstance(e, ast.Compare) and isinstance(e.ops[0], ast.Is) and isinstance(e.left, ast.Name) and e.left.id == x
+                                      and isinstance(e.comparators[0], ast.Constant) and not isinstance(e.comparators[0].value, str), polarity=True, kill_names=lambda e: set())
+                if sentinel is None:
+                    bad = w
+                    break
+            if bad is not None:
+                r.fail(m, bad.ast, norm(bad.ast) + " before the value look-ahead", "%s can set %s to None for a string that was given, before the test that decides whether to take the NEXT token as "
+                       "the value: after '--opt=' (an explicitly empty value) the following positional is swallowed as the option's value" % (m.short, x))
+            else:
+                r.ok("%s: look-ahead `%s` sees %s as given" % (m.short, norm(g.ast), x))
 
 
 def _parser_facts(ctx):
